@@ -62,6 +62,9 @@ struct ErrObs {
     nested_counter: u32,
     errors_seen: u32,
     shared: std::rc::Rc<std::cell::RefCell<Shared>>,
+    /// the top-level command in flight, and the error its condition command reported (if / elseif / while headers)
+    d0_name: String,
+    cond_error: Option<String>,
 }
 
 #[derive(Default)]
@@ -89,6 +92,8 @@ impl Observer for ErrObs {
             return None;
         }
         if info.depth == 0 {
+            self.d0_name = info.name.clone();
+            self.cond_error = None;
             if let Some(f) = &self.fatal {
                 core.violate("continued-after-fatal-error", format!("exit_on_error was on and {:?} failed at line {}, yet instruction index {} ({}) was started", f.msg, f.line, info.line, info.name));
             }
@@ -141,6 +146,21 @@ impl Observer for ErrObs {
     fn on_end(&mut self, core: &mut Core, info: &StartInfo, result: &mut CommandResult, _v: &mut HashMap<String, String>, _s: &mut HashMap<String, StateValue>, _e: &mut Env) {
         if info.handler {
             return;
+        }
+        // a block header whose condition command reported an error has itself failed with that error
+        let header = |n: &str| n == "std::flowcontrol::If" || n == "std::flowcontrol::ElseIf" || n == "std::flowcontrol::While";
+        if info.depth == 1 && info.name == "cfail" && header(&self.d0_name) {
+            if let CommandResult::Error(m) = result {
+                self.cond_error = Some(m.clone());
+                core.probe("condition-command-of-a-block-header-failed");
+            }
+        }
+        if info.depth == 0 && header(&info.name) {
+            if let Some(m) = self.cond_error.take() {
+                if !matches!(result, CommandResult::Error(_)) {
+                    core.violate("condition-error-lost", format!("{} at instruction index {}: its condition command reported {:?}, the block command answered {}", info.name, info.line, m, sim::result_kind(result)));
+                }
+            }
         }
         // exit_on_error toggles (any depth)
         if info.name == EXIT_ON_ERROR {
@@ -269,6 +289,19 @@ fn plant_block(stmts: &mut Vec<Stmt>, rng: &mut Rng, n_arrays: usize, rate: u64)
             stmts.insert(i, Stmt::Raw(raw_line(rng, n_arrays)));
             i += 1;
         }
+        if rng.chance(1, rate * 8) {
+            // a block whose header's condition command fails (once): the header is the failing instruction
+            let site = rng.below(1_000_000);
+            let group: Vec<String> = match rng.below(3) {
+                0 => vec![format!("while cfail {}", site), "emit in-loop".to_string(), "end".to_string()],
+                1 => vec!["if false".to_string(), "emit never".to_string(), format!("elseif cfail {}", site), "emit elseif-body".to_string(), "end".to_string()],
+                _ => vec![format!("if cfail {}", site), "emit if-body".to_string(), "end".to_string()],
+            };
+            for (k, g) in group.into_iter().enumerate() {
+                stmts.insert(i + k, Stmt::Raw(g));
+            }
+            i += 5;
+        }
         if i < stmts.len() {
             match &mut stmts[i] {
                 Stmt::If { branches, els, .. } => {
@@ -334,6 +367,8 @@ fn run_case(case: &Case, env: &WorkerEnv) -> Verdict {
         nested_counter: 0,
         errors_seen: 0,
         shared: shared.clone(),
+        d0_name: String::new(),
+        cond_error: None,
     })));
     let mut context = gen::sdk_context();
     gen::add_harness(&mut context.commands);
